@@ -74,6 +74,8 @@ THEOREMS = ["OllamaVerif.C18." + t for t in (
     "every_call_admissible_on", "X_not_OrdLaws", "xLawsOn", "xBeqLawOn", "Sample_totalize_greedy",
     "sample_admissible_fixed_on", "xArithLawsOn", "noNaN_maskLogits", "grammar_retry_greedy_on",
     "grammar_retry_admissible_fixed_on",
+    # the admissibility clauses hold for ANY correct top-k stage (pdqsort's order among equal logits is immaterial)
+    "SampleWith_topK", "sampleWith_admissible", "sampleWith_admissible_fixed_on",
     "deterministic", "hist_nth", "Sample_indep_r", "stream_of_seed", "grammar_step_spec",
     "grammar_retry_admissible_partial", "grammar_retry_admissible_fixed_partial", "grammar_retry_greedy",
     "masked_not_neginf_accepted", "maskLogits_get", "F18_nan_instead_of_token", "F18_guard_fails",
